@@ -80,6 +80,7 @@ INT_POOL = [0, 1, -1, 2, -2, 3, 10, -10, 255, 2**31, -(2**63), 10**20, 7, 42]
 def gen_lists(rng, tier):
     """Enum `enum:` lists (Python lists, possibly containing None or mixed types)."""
     out = [["a", "A"], ["a\u00b2", "b"], ["a b", "a-b"], ["a b", "a_b"], ["", "value_0"], ["value_1", ""], ["1", "1"], ["a", "a"], [1, 1], [0, -0], ["a\\b"], ['a"b', "c"],
+           ["\U0001F600", "b"], ["x-\U0001D4B3-ray", "plain"], ["e\u0301", "\u00e9"], ["a\u00a0b", "a b"], ["\u200fa", "a"], ["\U0001F44D\U0001F3FD"], ["\U0001D7D8", "\U0001D504x"],
            [None], [None, None], ["a", None], [None, 1, 2], [1, "a"], [True], [True, 1], [1.5], [1, 2.0], [[1]], [{"a": 1}], [[1], {"a": 1}], ["a", None, "A"],
            ["x", "y", None, "z"], [-1, 1], ["-1", "1"], ["1a", "a1"], ["é", "É"], ["ß", "SS"], ["ǅx", "ǆx"], ["ab", "a b", "aB"], ["A_B", "a b"], ["a b", "A_B"],
            ["a", "b", "c"], [3, 2, 1], ["b", "a"], ["B", "a"], ["x", "X y"], ["it's", 'say "hi"'], ["\\", "/"], ['\\"'], ["a\\"], ["a\nb"], ["µm", "Μm"],
@@ -267,6 +268,11 @@ def build_doc(cases):
     schemas = {}
     for c in cases:
         prop = {"const": c["const"]} if c["kind"] == "const" else {"enum": c["values"]}
+        if c.get("nullable30"):
+            prop = {"type": "string" if isinstance(c["values"][0], str) else "integer", "nullable": True, "enum": c["values"]}
+            if c.get("ref30"):
+                schemas[f"N{c['i']}Kind"] = prop
+                prop = {"$ref": f"#/components/schemas/N{c['i']}Kind"}
         s = {"type": "object", "properties": {"x": prop}}
         if c["required"]:
             s["required"] = ["x"]
@@ -349,6 +355,15 @@ def stage_gen(run, tier, lists):
                 except ValueError:
                     raises = True
             (crash_cases if raises else cases).append(c)
+    # OpenAPI 3.0 `nullable: true` next to an enum that does not list null (inline and referenced, required and optional, both styles):
+    # the enum must stay exact for every non-null value (whether null itself is accepted is C10's subject, finding enum_nullable30_ignored)
+    for l30 in (["red", "Green"], [1, 2], ["a b", "c"], ["\U0001F600", "ok"]):
+        for literal in (False, True):
+            for ref30 in (False, True):
+                for req in (True, False):
+                    cases.append({"i": idx, "kind": "enum", "values": l30, "nn": list(l30), "vt": type(l30[0]), "literal": literal, "required": req, "nullable": False,
+                                  "nullable30": True, "ref30": ref30, "probes": probes_for(l30, rng)})
+                    idx += 1
     consts = ["a", "", "a b", "é", 'a"b', "it's", "a\\b", "{x}", "a{", "tab\t", "x" * 30, 3, 0, -1, 10**20, True, False, 1.5, 3.0, -0.25, 1e22, "None", "3", "true"]
     if tier == "thorough":
         consts += [S.rand_str(rng, S.HOSTILE, 6) for _ in range(150)] + [rng.randint(-10**9, 10**9) for _ in range(40)]
@@ -465,7 +480,9 @@ def stage_gen(run, tier, lists):
                     listed = any(same(p, v) for v in decl)
                     alias = not listed and any((not isinstance(p, (list, dict, str, type(None)))) and (not isinstance(v, str)) and p == v for v in decl)
                     enc_back = dec_value(pr["to_dict"]["v"]["x"]) if "to_dict" in pr and "x" in pr["to_dict"].get("v", {}) else ("?",)
-                    if p is None:
+                    if p is None and c.get("nullable30"):
+                        pass
+                    elif p is None:
                         if c["nullable"]:
                             if summ != ("none",) or enc_back is not None:
                                 fails.append((c, "null", f"null listed but decode(None) = {summ!r}, encode = {enc_back!r}"))
